@@ -138,7 +138,8 @@ fn data_set(rng: &mut Rng) -> Vec<u8> {
 pub fn packet(rng: &mut Rng) -> Vec<u8> {
     match rng.below(12) {
         0 => {
-            let n = rng.urange(0, 64);
+            // very short buffers matter: empty, one byte, a bare version field
+            let n = if rng.chance(1, 3) { rng.urange(0, 3) } else { rng.urange(0, 64) };
             rng.bytes(n)
         }
         1 => {
